@@ -289,6 +289,113 @@ def body_syncrn(case, rec):
         )
 
 
+# ------------------------------------------------------------------ the harness owns the schedule
+class _FakeParallel:
+    """Stand-in for joblib.Parallel: evaluates the delayed calls in a generated order and returns the results in
+    submission order (joblib's contract).  Makes 'which task runs first' an ordinary generated choice."""
+
+    order_keys = [0]
+
+    def __init__(self, *a, **k):
+        pass
+
+    def __call__(self, tasks):
+        tasks = list(tasks)
+        order = cg._perm_from_keys(self.order_keys, len(tasks))
+        out = [None] * len(tasks)
+        for i in order:
+            f, a, k = tasks[i]
+            out[i] = f(*a, **k)
+        return out
+
+
+class _FakeExecutor:
+    """Stand-in for ProcessPoolExecutor: map() runs the tasks in a generated order, yields results in order."""
+
+    order_keys = [0]
+
+    def __init__(self, max_workers=None, mp_context=None, initializer=None, initargs=(), **k):
+        # a pool initialiser runs once per worker; here there is one (in-process) worker
+        if initializer is not None:
+            initializer(*initargs)
+
+    def __enter__(self):
+        return self
+
+    def __exit__(self, *exc):
+        return False
+
+    def map(self, fn, tasks, **kw):
+        tasks = list(tasks)
+        order = cg._perm_from_keys(self.order_keys, len(tasks))
+        out = [None] * len(tasks)
+        for i in order:
+            out[i] = fn(tasks[i])
+        return iter(out)
+
+
+def body_schedule_batch(case, rec):
+    """BatchReactor with entry- and rule-level dispatch replaced by an executor whose execution order is generated."""
+    import synkit.Synthesis.Reactor.batch_reactor as mod
+    from synkit.Synthesis.Reactor.batch_reactor import BatchReactor
+
+    style, rules, subs = _batch_inputs(case)
+    _FakeParallel.order_keys = case["order"]
+    old = mod.Parallel
+    mod.Parallel = _FakeParallel
+    try:
+        br = BatchReactor(
+            list(subs), strategy=case["strategy"], cache_enabled=case["cache"], cache_maxsize=case["cache_max"],
+            entry_n_jobs=case["entry_jobs"], rule_n_jobs=case["rule_jobs"], parallel_rules=case["rule_jobs"] > 1,
+            allow_nested=True, **rx.mode_for(style),
+        )
+        got = br.fit(rules, invert=case["invert"])
+    finally:
+        mod.Parallel = old
+    rec.show(dict(entries=[s[:60] for s in subs], templates=case["templates"], order=case["order"][:6], jobs=[case["entry_jobs"], case["rule_jobs"]]))
+    _compare(case, rec, got, style, rules, subs, "schedule")
+
+
+def body_schedule_syncrn(case, rec):
+    """SynCRN.build(parallel=True) with the process pool replaced by an executor whose execution order is generated."""
+    import synkit.CRN.DAG.syncrn as mod
+    from synkit.CRN.DAG.syncrn import SynCRN
+
+    style = case["style"]
+    rules = [cg.corpus()[i][0] for i in case["templates"]]
+    seeds = []
+    for j in case["seeds"]:
+        seeds.extend(cg.unmapped(cg.corpus()[j][0].split(">>")[0]).split("."))
+    mode = rx.mode_for(style)
+
+    def run(parallel):
+        crn = SynCRN(rules=list(rules), repeats=case["repeats"], strategy=case["strategy"], max_components=2, **mode)
+        return crn.build(list(seeds), parallel=parallel, max_workers=case["workers"])
+
+    g0 = run(False)
+    _FakeExecutor.order_keys = case["order"]
+    old = mod.ProcessPoolExecutor
+    mod.ProcessPoolExecutor = _FakeExecutor
+    try:
+        g1 = run(True)
+    finally:
+        mod.ProcessPoolExecutor = old
+    rec.nt(g0.number_of_edges() >= 2)
+    rec.show(dict(seeds=seeds[:6], templates=case["templates"], nodes=g0.number_of_nodes(), edges=g0.number_of_edges(), order=case["order"][:6]))
+    if _graph_fingerprint(g0) != _graph_fingerprint(g1):
+        raise Violation("schedule:syncrn", f"serial graph {g0.number_of_nodes()}/{g0.number_of_edges()} vs generated execution order {case['order'][:8]}: {g1.number_of_nodes()}/{g1.number_of_edges()} or different attributes")
+
+
+def strat_schedule_batch(tier):
+    keys = st.lists(st.integers(0, 10**6), min_size=2, max_size=16)
+    return st.builds(lambda c, o: dict(c, order=o), batch_cases(parallel=True).map(lambda c: dict(c, prefilter=None)), keys)
+
+
+def strat_schedule_syncrn(tier):
+    keys = st.lists(st.integers(0, 10**6), min_size=2, max_size=16)
+    return st.builds(lambda c, o: dict(c, order=o), strat_syncrn(tier), keys)
+
+
 # ------------------------------------------------------------------ batched vs one-shot clustering
 def body_cluster(case, rec):
     from synkit.Graph.Matcher.batch_cluster import BatchCluster
@@ -458,5 +565,9 @@ SUBS = [
     Sub("batch_parallel", body_batch, strategy=strat_batch_parallel, examples={"quick": 90, "thorough": 900}, shards={"quick": 3, "thorough": 4}, shrink=False),
     Sub("parallel_validation", body_parallel_validation, strategy=strat_validation, examples={"quick": 48, "thorough": 600}, shards={"quick": 3, "thorough": 4}, shrink=False),
     Sub("syncrn_parallel", body_syncrn, strategy=strat_syncrn, examples={"quick": 30, "thorough": 300}, shards={"quick": 1, "thorough": 1}, shrink=False, serial=True),
+    Sub("schedule_batch", body_schedule_batch, strategy=strat_schedule_batch, examples={"quick": 240, "thorough": 4000}, shards={"quick": 16, "thorough": 16}, shrink=False,
+        doc="BatchReactor with joblib.Parallel replaced by an executor running tasks in a generated order (results returned in submission order): per-entry results must equal SynReactor alone"),
+    Sub("schedule_syncrn", body_schedule_syncrn, strategy=strat_schedule_syncrn, examples={"quick": 160, "thorough": 3000}, shards={"quick": 16, "thorough": 16}, shrink=False,
+        doc="SynCRN.build(parallel=True) with ProcessPoolExecutor replaced by an executor running tasks in a generated order vs the serial build"),
     Sub("batch_clustering", body_cluster, strategy=strat_cluster, examples={"quick": 200, "thorough": 4000}, shards={"quick": 4, "thorough": 8}),
 ]
